@@ -1023,6 +1023,8 @@ def run_case(ctx, kind, c):
         raise
     except Exception as e:
         import traceback
+        if isinstance(e, (RuntimeError, BrokenPipeError, OSError)) and ('navisdrv' in str(e) or 'driver died' in str(e) or isinstance(e, (BrokenPipeError, OSError))):
+            raise                                # driver / infrastructure problem: exit 2, never a violation
         ctx.fail('corr', f'{kind}: harness could not evaluate the case: {type(e).__name__}: {e} '
                          f'[{traceback.format_exc().strip().splitlines()[-3].strip()}]', c)
 
